@@ -14,8 +14,8 @@ var keyLiteralRx = regexp.MustCompile(`"([^"]+)":(true|false|null|-?\d+)$`)
 func checkC05(c *Check) {
 	c.Explanation = "JSON validity and key agreement of generated code, decided per generated type over every corpus (not by writing any JSON): (1) well-formedness — each WriteJSONOpt is interpreted over an abstract JSON automaton (stack of open containers × grammar phase): constant fragments are tokenised, basictl.JSONWrite*/nested WriteJSON* calls count as one value, JSONAddCommaIfNeeded adds a comma unless the previous byte opens a container, and the backup/rollback idiom restores the saved state; on every path no token is out of place and every success return leaves exactly one complete value; (2) data discipline — the only non-constant bytes reaching the buffer come from basictl.JSONWrite* or a nested writer; (3) key tables — the set of keys the writer can emit equals the set of `case` labels of the type's ReadJSONGeneral, and for each key the writer's operand (field) is the field the reader's case fills, with dual codecs (JSONWriteX ↔ Json2ReadX, nested writer ↔ nested reader of the same family). String escaping, base64 fallback and number spelling are C34's tables."
 	c.NotCovered = "equality of TL1/TL2 encodings after a JSON round trip for all values (needs execution); strconv/easyjson behaviour (trusted)"
-	c.Assumptions = []string{"union index is within range (set only by generated accessors and readers: C43, C02)"}
-	writers, keysChecked := 0, 0
+	c.Assumptions = []string{"union index is within range (set only by generated accessors and readers: C43, C02)", "JSONWriteContext.Short is a write-only migration mode (a …Long union is written under its non-Long sibling's type names; readers have no such mode): names emitted under it are outside the round trip"}
+	writers, keysChecked, unions := 0, 0, 0
 	withCorpora(c, true, func(g *genCtx) {
 		for _, fam := range g.families() {
 			roles := g.byFam[fam]
@@ -34,7 +34,24 @@ func checkC05(c *Check) {
 			}
 			// (3) key tables
 			rd := roles["ReadJSONGeneral"]
-			if rd == nil || len(e.keys) == 0 {
+			if rd == nil {
+				continue
+			}
+			if wn := g.jsonUnionWriterNames(w); wn != nil {
+				rn := g.jsonUnionReaderNames(rd)
+				for _, idx := range sortedKeys(wn) {
+					var missing []string
+					for _, nm := range wn[idx] {
+						if !rn[idx][nm] {
+							missing = append(missing, nm)
+						}
+					}
+					unions++
+					c.Ob("json-union-type-names", name+"/variant"+idx, len(wn[idx]) > 0 && len(missing) == 0, posStr(g.co.Fset, rd.Decl.Pos()), fmt.Sprintf("writer can emit type names %v for variant %s; reader maps %v to that variant; not accepted: %v", wn[idx], idx, keysOf(rn[idx]), missing))
+				}
+				continue
+			}
+			if len(e.keys) == 0 {
 				continue
 			}
 			rkeys := g.jsonReaderKeys(rd)
@@ -51,7 +68,23 @@ func checkC05(c *Check) {
 			sort.Strings(wk)
 			sort.Strings(rk)
 			keysChecked++
-			c.Ob("json-key-table/same-keys", name, strings.Join(wk, ",") == strings.Join(rk, ","), posStr(g.co.Fset, rd.Decl.Pos()), fmt.Sprintf("writer keys %v; reader case labels %v", wk, rk))
+			var missing, extra []string
+			for _, k := range wk {
+				if _, ok := rkeys[k]; !ok {
+					missing = append(missing, k)
+				}
+			}
+			for _, k := range rk {
+				if _, ok := e.keys[k]; ok {
+					continue
+				}
+				// a key the writer never emits is fine only for a field without content (True and friends)
+				if f := strings.Fields(rkeys[k]); len(f) >= 2 && f[0] == "nested" && g.zeroSizeFamily(rd, f[1]) {
+					continue
+				}
+				extra = append(extra, k)
+			}
+			c.Ob("json-key-table/same-keys", name, len(missing) == 0 && len(extra) == 0, posStr(g.co.Fset, rd.Decl.Pos()), fmt.Sprintf("writer keys %v; reader case labels %v; written but not read: %v; read, never written and not an empty type: %v", wk, rk, missing, extra))
 			for _, k := range wk {
 				rv, ok := rkeys[k]
 				if !ok {
@@ -63,6 +96,8 @@ func checkC05(c *Check) {
 		}
 	})
 	c.Set("json_writers", writers)
+	c.Set("json_union_variants", unions)
+	c.Floor("json-union-type-names", 20)
 	c.Floor("json-writer-well-formed", 100)
 	c.Floor("json-key-table/same-keys", 50)
 	c.Floor("json-key-table/same-field-and-codec", 150)
@@ -179,4 +214,111 @@ func jsonDual(w, r string) bool {
 		return wf[1] == rf[1] && wf[2] == rf[2]
 	}
 	return false
+}
+
+var unionTypeFragRx = regexp.MustCompile(`^\{"type":"([^"]*)"$`)
+
+// jsonUnionWriterNames: variant index → type names the writer can emit; nil when the writer is not a union writer.
+func (g *genCtx) jsonUnionWriterNames(fi *FuncInfo) map[string][]string {
+	ir := g.ir(fi)
+	var out map[string][]string
+	for _, n := range ir.Body {
+		sw, ok := n.(*SwitchN)
+		if !ok || sw.Tag != "item.index" {
+			continue
+		}
+		for _, cs := range sw.Cases {
+			if cs.Default || len(cs.Vals) != 1 || !strings.HasPrefix(cs.Vals[0], "#") {
+				continue
+			}
+			idx := cs.Vals[0][1:]
+			walkBlock(cs.Body, nil, func(m Node, gs []Guard) {
+				cn, ok := m.(*CallN)
+				if !ok || cn.Builtin != "append" || len(cn.Args) != 2 {
+					return
+				}
+				for _, g := range gs {
+					if g.Kind == "if" && strings.Contains(g.Text, "JSONWriteContext.Short") {
+						return // write-only migration mode (names of the non-Long sibling type); see assumptions
+					}
+				}
+				if frag, ok := constFragment(cn.Args[1]); ok {
+					if mm := unionTypeFragRx.FindStringSubmatch(frag); mm != nil {
+						if out == nil {
+							out = map[string][]string{}
+						}
+						out[idx] = append(out[idx], mm[1])
+					}
+				}
+			})
+		}
+	}
+	return out
+}
+
+// jsonUnionReaderNames: variant index → accepted type-name labels.
+func (g *genCtx) jsonUnionReaderNames(fi *FuncInfo) map[string]map[string]bool {
+	out := map[string]map[string]bool{}
+	ir := g.ir(fi)
+	walkBlock(ir.Body, nil, func(n Node, _ []Guard) {
+		sw, ok := n.(*SwitchN)
+		if !ok {
+			return
+		}
+		for _, cs := range sw.Cases {
+			idx := ""
+			for _, m := range cs.Body {
+				if as, ok := m.(*AssignN); ok && len(as.LHS) == 1 && as.LHS[0] == "item.index" && strings.HasPrefix(as.RHS[0], "#") {
+					idx = as.RHS[0][1:]
+				}
+			}
+			if idx == "" {
+				continue
+			}
+			if out[idx] == nil {
+				out[idx] = map[string]bool{}
+			}
+			for _, v := range cs.Vals {
+				if k, ok := constFragment(v); ok {
+					out[idx][k] = true
+				}
+			}
+		}
+	})
+	return out
+}
+
+// zeroSizeFamily: the named family (in the package of `from`) has a TL1 writer that writes nothing.
+func (g *genCtx) zeroSizeFamily(from *FuncInfo, fam string) bool {
+	if g.zeroSizeJSON(from, fam) {
+		return true
+	}
+	return g.zeroSizeTL1(from, fam)
+}
+
+// zeroSizeJSON: the family's JSON writer emits constants only (no key, no value event).
+func (g *genCtx) zeroSizeJSON(from *FuncInfo, fam string) bool {
+	roles := g.byFam[from.Pkg.PkgPath+"."+fam]
+	if roles == nil || roles["WriteJSONOpt"] == nil {
+		return false
+	}
+	e := g.jsonEmit(roles["WriteJSONOpt"])
+	return len(e.problems) == 0 && e.values == 0 && len(e.keys) == 0 && e.exits > 0
+}
+
+func (g *genCtx) zeroSizeTL1(from *FuncInfo, fam string) bool {
+	roles := g.byFam[from.Pkg.PkgPath+"."+fam]
+	if roles == nil {
+		for key, rs := range g.byFam {
+			if shortFam(key) == fam {
+				roles = rs
+				break
+			}
+		}
+	}
+	if roles == nil || roles["WriteTL1"] == nil {
+		return false
+	}
+	w, _ := g.wire(roles["WriteTL1"], tl1WriteCfg, "w")
+	return len(realOps(w)) == 0
 }
